@@ -173,7 +173,7 @@ impl Engine for C04 {
                     p.via_file = false;
                     let len = p.delivery.first().map(|i| diff_text(&p, *i).1.len()).unwrap_or(1) as u64;
                     let fault = match f.below(5) {
-                        0 | 1 => Fault::Eof { at: f.below(len + 1) },
+                        0 | 1 => Fault::Eof { at: if f.chance(12) { 0 } else { f.below(len + 1) } },
                         2 => Fault::Flip { off: f.below(len.max(1)), bit: f.below(8) as u8 },
                         3 => Fault::Eio { at_call: f.below(4) as u32, sticky: f.chance(50) },
                         _ => Fault::EioAtOffset { off: f.below(len + 1) },
@@ -491,6 +491,12 @@ impl Engine for C04 {
                     }
                     Err(e) if e.starts_with(UNDECODABLE) => {
                         out.push(Violation::new("T2", "reader-ok-on-undecodable-input", "read-diff", format!("the delivered bytes are not UTF-8 text ({e}) but the diff reader returned Ok")));
+                        break;
+                    }
+                    Err(_) if delivered.is_empty() => {
+                        // nothing at all was delivered: every .tinydiff starts with its header line, so a file cut to zero
+                        // bytes is not "a diff without changes" (missed seeded changes C04-16 / C05-16)
+                        out.push(Violation::new("T2", "reader-ok-on-empty-input", "read-diff", "the medium delivered no byte, the diff reader returned Ok".to_string()));
                         break;
                     }
                     Err(_) => {
